@@ -108,6 +108,7 @@ def _execute(case, res, tmp):
     w = W.World(case['knobs'], res, tmp)
     hist, redo = [], []          # entries: {'before','after','kind','created','edit_ok','redo_ok'}
     outside = [False]
+    follow = [False]
     for op in case['ops']:
         k = op[0]
         res.nops += 1
@@ -121,8 +122,14 @@ def _execute(case, res, tmp):
             # choosing another edit subset / mode (a click, not a command) while commands can be redone changes what redo
             # does; with nothing to redo it is what users do between commands, and undo must still restore exactly
             continue
+        if not hist and not redo:
+            follow[0] = False
         if k in ('set_edit', 'set_mode') and hist:
             outside[0] = True
+            # from here on a re-done command may run under another choice than when it was first done, and whatever is re-done
+            # after it starts from another state: until the history is empty again every redo is followed (its snapshots
+            # refreshed), not compared; every undo is still compared with the state before the latest execution of its command
+            follow[0] = True
             # AddData / RemoveData neither use nor record the edit-subset choice: undoing them after a click leaves the choice
             # where the click put it (a click is not a command, the statement does not say what undo does to it)
             for e in hist:
@@ -132,7 +139,7 @@ def _execute(case, res, tmp):
                 e['redo_ok'] = False
             res.probe('edit_choice_changed_between_commands')
         before = snapshot(w) if is_do else None
-        pre_redo = snapshot(w) if (k == 'redo' and redo and not redo[-1].get('redo_ok', True)) else None
+        pre_redo = snapshot(w) if (k == 'redo' and redo and (follow[0] or not redo[-1].get('redo_ok', True))) else None
         nlog = w.ncmds
         entry = None
         if k == 'undo' and hist:
@@ -146,6 +153,7 @@ def _execute(case, res, tmp):
                 path = w.save(include_data=True)
                 w.rebind(w.restore(path))
                 hist, redo = [], []
+                follow[0] = False
                 res.fault('crash_restart')
                 out = W.OK
             else:
@@ -187,7 +195,7 @@ def _execute(case, res, tmp):
             e = redo.pop()
             hist.append(e)
             got = snapshot(w)
-            if not e.get('redo_ok', True):
+            if pre_redo is not None:
                 e['before'], e['after'] = pre_redo, got
                 res.probe('redo_followed_not_compared')
             d = diff(e['after'], got, e['edit_ok'])
